@@ -19,7 +19,7 @@ ASSUMPTIONS = ["a retry is recognised as any later assignment containing an oper
                "retry size: exactly doubled, or the whole free pool when the doubled request does not fit (the code's take-all rule)"]
 NSHARDS = {"quick": 16, "thorough": 16}
 N = {"quick": 50, "thorough": 6000}
-REQUIRE = {"assignments_class:QUERY": 200, "assignments_class:INTERACTIVE": 200, "assignments_class:BATCH_PIPELINE": 200,
+REQUIRE = {"scale:run_with_more_than_8192_pipelines": 1, "assignments_class:QUERY": 200, "assignments_class:INTERACTIVE": 200, "assignments_class:BATCH_PIPELINE": 200,
            "oom_failures_seen": 500, "retries_assigned": 200, "retries_to_be_abandoned": 100, "sim_runs": 500}
 
 
